@@ -8,6 +8,10 @@ tie 1  : Coq model (outcome, returned field, bound)  vs  the real expansion (in-
          pattern position `source` is, which where-predicates are added, err / panic)           - every layout
 tie 2  : the reading of the expansion (Layer-2 semantics `source_returns`) vs the compiled real macro: address of
          the object `source()` returns compared with the addresses of the value's fields         - compilable layouts
+enums  : whole enums with 1..3 (thorough: 4) variants - {variant with a source, without, ignored with / without a
+         would-be source, ambiguous} in every order; `source()` is observed on EVERY variant (ignored ones must give
+         None), the emitted `match self` must be exhaustive (wildcard decided against ALL variants), and a
+         documented-valid enum whose expansion does not compile is a violation with the enum as replay.
 oracle : an independent Python evaluator of impl/doc/error.md + the property text (NOT the Coq spec) decides what
          must be returned / rejected; compared with the run-time observation (or the expansion where the layout
          cannot be compiled), and cross-checked against the Coq `documented_source`.
@@ -246,13 +250,13 @@ def field_index(tok, case):
     return None
 
 
-def pattern_binding(body, case, binding, tail):
-    """position of `binding` in the arm `E :: V <pattern> => <tail>` of a match in `body`"""
+def pattern_binding(body, case, binding, tail, vname="V"):
+    """position of `binding` in the arm `E :: <vname> <pattern> => <tail>` of a match in `body`"""
     kind, shape, fields = case
     if shape == "named":
-        m = re.search(r"E :: V \{ ?(.*?) ?\} => " + tail, body)
+        m = re.search(r"E :: " + vname + r" \{ ?(.*?) ?\} => " + tail, body)
     else:
-        m = re.search(r"E :: V \( ?(.*?) ?\) => " + tail, body)
+        m = re.search(r"E :: " + vname + r" \( ?(.*?) ?\) => " + tail, body)
     if not m:
         return "no-arm"
     parts = [p.strip() for p in m.group(1).split(" , ")] if m.group(1).strip() else []
@@ -491,6 +495,231 @@ def build_and_run(chk, name, toolchain, mods, nbins):
     return {}, failed
 
 
+# ------------------------------------------------------------------ whole enums with several variants
+#
+# An enum case is ("enum", variants), variants = tuple of (ignored?, shape, fields); variant k is called Vk, a
+# field-less named variant is written as a unit variant, the type parameter of field i of variant k is T<k>_<i>.
+
+def m_ty(f, v, i, real):
+    return {"inner": "Inner", "bt": "real::Backtrace" if (v, i) in real else "fake::Backtrace",
+            "box": "Box<dyn Error + 'static>", "gen": "T%d_%d" % (v, i)}[f[1]]
+
+
+def m_gens(variants):
+    return [(v, i) for v, (ig, sh, fs) in enumerate(variants) for i, f in enumerate(fs) if f[1] == "gen"]
+
+
+def m_item(variants, real=()):
+    gens = m_gens(variants)
+    gp = "<%s>" % ", ".join("T%d_%d" % g for g in gens) if gens else ""
+    vs = []
+    for v, (ig, sh, fs) in enumerate(variants):
+        decls = []
+        for i, f in enumerate(fs):
+            at = "#[error(%s)] " % f[2] if f[2] else ""
+            decls.append("%s%s%s" % (at, (fname(f, i) + ": ") if sh == "named" else "", m_ty(f, v, i, real)))
+        body = "" if (sh == "named" and not fs) else (" { %s }" % ", ".join(decls) if sh == "named" else "(%s)" % ", ".join(decls))
+        vs.append("%sV%d%s" % ("#[error(ignore)] " if ig else "", v, body))
+    return "enum E%s { %s }" % (gp, ", ".join(vs))
+
+
+def m_show(variants):
+    return "#[derive(Error)] " + m_item(variants)
+
+
+def m_module(cid, variants, real=()):
+    gens = m_gens(variants)
+    gp = "<%s>" % ", ".join("T%d_%d" % g for g in gens) if gens else ""
+    inst = "::<%s>" % ", ".join("Inner" for _ in gens) if gens else ""
+    out = ["mod m%d {" % cid, "    use super::*;", "    #[derive(Debug, derive_more::Error)]", "    pub " + m_item(variants, real),
+           "    impl%s fmt::Display for E%s { fn fmt(&self, f: &mut fmt::Formatter<'_>) -> fmt::Result { f.write_str(\"E\") } }" % (gp, gp),
+           "    pub fn run() {"]
+    for v, (ig, sh, fs) in enumerate(variants):
+        vals = [{"inner": "Inner(%d)" % (i + 1), "bt": "real::Backtrace::disabled()" if (v, i) in real else "fake::Backtrace(%d)" % (i + 1),
+                 "box": "Box::new(Inner(%d))" % (i + 1), "gen": "Inner(%d)" % (i + 1)}[f[1]] for i, f in enumerate(fs)]
+        if sh == "named" and not fs:
+            lit = pat = ""
+        elif sh == "named":
+            lit = " { %s }" % ", ".join("%s: %s" % (fname(f, i), x) for i, (f, x) in enumerate(zip(fs, vals)))
+            pat = " { %s }" % ", ".join("%s: f%d" % (fname(f, i), i) for i, f in enumerate(fs))
+        else:
+            lit = "(%s)" % ", ".join(vals)
+            pat = "(%s)" % ", ".join("f%d" % i for i in range(len(fs)))
+        addrs = ["addr(&**f%d)" % i if f[1] == "box" else "addr(f%d)" % i for i, f in enumerate(fs)]
+        out.append("        { let v = E%s::V%d%s; if let E::V%d%s = &v { report(%d, \"V%d\", v.source(), &[%s]); } }" %
+                   (inst, v, lit, v, pat, cid, v, ", ".join(addrs)))
+    out += ["    }", "}"]
+    return "\n".join(out)
+
+
+def m_expected(variants):
+    """per variant: None | field index; or 'ambiguous' for the whole enum (an enabled variant is ambiguous)"""
+    exp = []
+    for ig, sh, fs in variants:
+        if ig:
+            exp.append(None)                       # "source() is None for an ignored variant"
+            continue
+        d = doc_source(sh, fs)
+        if d == "ambiguous":
+            return "ambiguous"
+        exp.append(d)
+    return exp
+
+
+def m_read(variants, resp):
+    """-> dict(outcome, has_fn, wildcard, returned[per variant], bounds[(v, i)], provide, real{(v,i)}, compilable, msg)"""
+    if resp is None or "crash" in resp or "bad_request" in resp or "item_unparsable" in resp:
+        return {"outcome": "harness-failure", "msg": json.dumps(resp)[:300]}
+    if "panic" in resp:
+        return {"outcome": "panic", "msg": "%s at %s" % (resp["panic"].get("msg"), resp["panic"].get("loc"))}
+    if "err" in resp:
+        return {"outcome": "err", "msg": resp["err"]}
+    impls = [it for it in resp["items"] if it.get("kind") == "impl"]
+    if len(impls) != 1 or not impls[0]["trait"].endswith("Error"):
+        return {"outcome": "unreadable", "msg": resp["ok"][:300]}
+    impl = impls[0]
+    mem = {m["sig"].split()[1]: m["body"] for m in impl["members"]}
+    r = {"outcome": "ok", "has_fn": "source" in mem, "wildcard": False, "returned": [None] * len(variants), "bounds": [],
+         "provide": "provide" in mem, "real": set(), "compilable": True, "why": "", "msg": "", "provide_wildcard": None,
+         "provide_arms": []}
+    if "source" in mem:
+        body = mem["source"]
+        if not re.match(r"^\{ use derive_more :: __private :: AsDynError ; match self \{ .* \} \}$", body):
+            return {"outcome": "unreadable", "msg": body[:300]}
+        r["wildcard"] = re.search(r"_ => " + OPT + r"None \} \}$", body) is not None
+        narms = len(re.findall(r"=> " + OPT + r"Some \(source \. as_dyn_error \(\)\)", body))
+        for v, (ig, sh, fs) in enumerate(variants):
+            b = pattern_binding(body, ("variant", sh, fs), "source", OPT + r"Some \(source \. as_dyn_error \(\)\)", "V%d" % v)
+            r["returned"][v] = None if b == "no-arm" else b
+        if narms != sum(1 for x in r["returned"] if x is not None):
+            return {"outcome": "unreadable", "msg": "arms not attributed: " + body[:300]}
+    if "provide" in mem:
+        body = mem["provide"]
+        r["provide_wildcard"] = re.search(r"_ => \(\) \} \}$", body) is not None
+        for v, (ig, sh, fs) in enumerate(variants):
+            if sh == "named":
+                m = re.search(r"E :: V%d \{ ?(.*?) ?\} => \{ (.*?) \}" % v, body)
+            else:
+                m = re.search(r"E :: V%d \( ?(.*?) ?\) => \{ (.*?) \}" % v, body)
+            if not m:
+                continue
+            r["provide_arms"].append(v)
+            arm = m.group(2)
+            src = pattern_binding(body, ("variant", sh, fs), "source", r"\{", "V%d" % v)
+            bt = pattern_binding(body, ("variant", sh, fs), "backtrace", r"\{", "V%d" % v)
+            if "Error :: provide (source" in arm and isinstance(src, int) and fs[src][1] == "box":
+                r["compilable"], r["why"] = False, "provide-through-box"
+            if "provide_ref" in arm:
+                if not isinstance(bt, int) or fs[bt][1] != "bt":
+                    r["compilable"], r["why"] = False, "provide-type-mismatch"
+                else:
+                    r["real"].add((v, bt))
+    for w in impl["where"]:
+        m = re.match(r"^T(\d+)_(\d+) : .*with_trait :: Error \+ 'static$", w)
+        if m:
+            r["bounds"].append((int(m.group(1)), int(m.group(2))))
+        elif not re.match(r"^E < .* > : derive_more :: core :: fmt :: Debug \+ derive_more :: core :: fmt :: Display$", w):
+            r["bounds"].append(("?", w))
+    r["bounds"].sort(key=str)
+    return r
+
+
+def m_coq(variants):
+    vs = []
+    for ig, sh, fs in variants:
+        vs.append("(mkVariant %s %s [%s])" % ("true" if ig else "false", "Named" if sh == "named" else "Unnamed",
+                                              "; ".join(coq_field(f, i) for i, f in enumerate(fs))))
+    return "(run_enum [%s])" % "; ".join(vs)
+
+
+def m_model(term):
+    o, flags, rets, bounds = term
+    return {"outcome": OUTC[o], "has_fn": flags[0] == "true", "wildcard": flags[1] == "true", "exhaustive": flags[2] == "true",
+            "returned": [copt(x) for x in rets], "bounds": sorted([(a, b) for (a, b) in bounds], key=str)}
+
+
+M_CORPUS = [
+    # the shape of the missed change: every enabled variant has a source, one variant is ignored
+    ((False, "unnamed", ((None, "inner", ""),)), (False, "named", (("source", "inner", ""),)), (True, "unnamed", ((None, "inner", ""),))),
+    ((False, "unnamed", ((None, "gen", ""),)), (True, "named", (("source", "gen", ""),))),
+    ((True, "unnamed", ((None, "inner", ""),)), (False, "unnamed", ((None, "inner", ""),))),
+    ((True, "named", ()), (False, "named", (("source", "box", ""),))),
+    # every variant has a source: no wildcard at all
+    ((False, "unnamed", ((None, "inner", ""),)), (False, "named", (("source", "inner", ""),))),
+    ((False, "unnamed", ((None, "inner", ""),)),),
+    # only ignored variants / no variant
+    ((True, "unnamed", ((None, "inner", ""),)), (True, "named", (("source", "inner", ""),))),
+    ((True, "unnamed", ((None, "inner", ""),)),),
+    # source-less variant between two with a source
+    ((False, "named", (("source", "inner", ""),)), (False, "named", ()), (False, "unnamed", ((None, "inner", "ignore"), (None, "inner", "")))),
+    # an ignored variant whose fields would be ambiguous
+    ((False, "unnamed", ((None, "inner", ""),)), (True, "named", (("other", "inner", "source"), ("other", "inner", "source")))),
+    # backtrace in one variant (provide, nightly)
+    ((False, "unnamed", ((None, "inner", ""), (None, "bt", ""))), (True, "unnamed", ((None, "inner", ""),))),
+    ((False, "unnamed", ((None, "inner", ""), (None, "bt", ""))), (False, "named", (("source", "inner", ""), ("backtrace", "bt", ""))),
+     (True, "named", (("source", "inner", ""),))),
+]
+
+
+def m_generate(chk, tier):
+    rng = chk.rng
+    pool = {"S": [], "N": [], "A": []}
+    srcs = [(sh, fs) for sh in ("named", "unnamed") for n in (0, 1, 2) for fs in layouts(sh, n)]
+    srcs += [(sh, random_layout(rng, sh, 3)) for sh in ("named", "unnamed") for _ in range(400)]
+    for sh, fs in srcs:
+        d = doc_source(sh, fs)
+        if d == "ambiguous":
+            pool["A"].append((sh, fs))
+        elif doc_backtrace_ambiguous(sh, fs):
+            continue
+        elif d is None:
+            pool["N"].append((sh, fs))
+        else:
+            pool["S"].append((sh, fs))
+    # plain (backtrace-free) layouts are the common case: give them half of the draws
+    plain = {k: [x for x in v if all(f[1] != "bt" and f[0] != "backtrace" and "backtrace" not in f[2] for f in x[1])]
+             for k, v in pool.items()}
+
+    def draw(k):
+        src = plain[k] if rng.random() < 0.6 else pool[k]
+        return rng.choice(src)
+
+    def concretise(seq):
+        vs = []
+        for a in seq:
+            if a == "S":
+                vs.append((False,) + draw("S"))
+            elif a == "N":
+                vs.append((False,) + draw("N"))
+            elif a == "Iw":                              # ignored, with a would-be source
+                vs.append((True,) + draw("S"))
+            elif a == "Io":                              # ignored, without
+                vs.append((True,) + draw("N"))
+            elif a == "Ia":                              # ignored, fields would be ambiguous
+                vs.append((True,) + draw("A"))
+            else:                                        # enabled and ambiguous: the derive must be rejected
+                vs.append((False,) + draw("A"))
+        return tuple(vs)
+
+    arche = ["S", "N", "Iw", "Io"]
+    maxlen, per = (3, 7) if tier == "quick" else (4, 25)
+    cases = list(M_CORPUS)
+    for n in range(1, maxlen + 1):
+        for seq in itertools.product(arche, repeat=n):
+            for _ in range(per):
+                cases.append(concretise(seq))
+    # the masked shape, systematically: all enabled variants have a source, >= 1 ignored variant, every order
+    for n in (2, 3, 4):
+        for seq in itertools.product(["S", "Iw", "Io", "Ia"], repeat=n):
+            if "S" in seq and any(a != "S" for a in seq) and (tier != "quick" or n <= 3 or rng.random() < 0.15):
+                cases.append(concretise(seq))
+    for _ in range(40 if tier == "quick" else 400):      # one ambiguous enabled variant somewhere
+        seq = [rng.choice(arche) for _ in range(rng.randrange(0, 3))]
+        seq.insert(rng.randrange(len(seq) + 1), "A")
+        cases.append(concretise(seq))
+    return list(dict.fromkeys(cases))
+
+
 # ------------------------------------------------------------------ the check
 
 def classify(case, real_outcome, returned, exp):
@@ -519,13 +748,18 @@ def run(tier, seed, replay):
     st = common.check_proofs(chk, "C09")
 
     rp = json.load(open(replay)).get("replay", {}) if replay else {}
-    if isinstance(rp, dict) and "case" in rp:
+    enums = []
+    if isinstance(rp, dict) and "enum" in rp:
+        cases = []
+        enums = [tuple((bool(v[0]), v[1], tuple((f[0], f[1], f[2]) for f in v[2])) for v in rp["enum"])]
+    elif isinstance(rp, dict) and "case" in rp:
         c = rp["case"]
         cases = [(c[0], c[1], tuple((f[0], f[1], f[2]) for f in c[2]))]
     else:
         replay = None
         cases = generate(chk, tier)
-    chk.log("%d layouts" % len(cases))
+        enums = m_generate(chk, tier)
+    chk.log("%d layouts, %d multi-variant enums" % (len(cases), len(enums)))
 
     # ---- the real expansion (in-process, unmodified sources)
     resps = common.run_jsonl(inproc, [{"cmd": "expand", "derive": "Error", "item": render_item(c)} for c in cases])
@@ -631,6 +865,102 @@ def run(tier, seed, replay):
         else:
             stable.append((cid, realbt))
 
+    # ---- whole enums: expansion, model, static oracle
+    EN = 1000000
+    e_real = [m_read(vs, r) for vs, r in
+              zip(enums, common.run_jsonl(inproc, [{"cmd": "expand", "derive": "Error", "item": m_item(vs)} for vs in enums]))]
+    e_exprs = ["[" + "; ".join(m_coq(vs) for vs in enums[i:i + 40]) + "]" for i in range(0, len(enums), 40)]
+    e_model = [m_model(t) for lst in common.coq_eval(["Verif.C09.Model"], e_exprs, preamble="Close Scope N_scope.", batch=4, tag="c09e")
+               for t in lst]
+    e_stable, e_nightly, e_confirm = [], [], []
+    e_skipped = {"rejected": 0, "panic": 0, "provide-type-mismatch": 0, "provide-through-box": 0, "not-exhaustive": 0, "missing-bound": 0}
+    for k, (vs, r, m) in enumerate(zip(enums, e_real, e_model)):
+        cid = EN + k
+        exp = m_expected(vs)
+        nign = sum(1 for v in vs if v[0])
+        chk.count(("enum", vs), True)
+        chk.bump("enum/%d variants/%d ignored" % (len(vs), nign))
+        rep = {"enum": [[v[0], v[1], [list(f) for f in v[2]]] for v in vs], "item": m_show(vs), "documented": exp}
+        if r["outcome"] in ("harness-failure", "unreadable") or any(isinstance(x, str) for x in r.get("returned", [])):
+            chk.violation("expansion-unreadable", dict(rep, real={k2: (sorted(v2) if isinstance(v2, set) else v2) for k2, v2 in r.items()}),
+                          "cannot read the expansion of %s: %s" % (m_show(vs), r.get("msg") or r.get("returned")))
+            continue
+        n_tie += 1
+        # tie: model vs expansion
+        same = r["outcome"] == m["outcome"] and (r["outcome"] != "ok" or (
+            r["has_fn"] == m["has_fn"] and r["wildcard"] == m["wildcard"] and r["returned"] == m["returned"] and
+            [tuple(b) for b in r["bounds"]] == [tuple(b) for b in m["bounds"]]))
+        if not same:
+            chk.violation("tie-model-enum", dict(rep, model=m, real={k2: (sorted(v2) if isinstance(v2, set) else v2) for k2, v2 in r.items()}),
+                          "model (%s, fn %s, wildcard %s, returns %s, bounds %s) vs expansion (%s, fn %s, wildcard %s, returns %s, bounds %s) on %s" %
+                          (m["outcome"], m["has_fn"], m["wildcard"], m["returned"], m["bounds"], r["outcome"], r.get("has_fn"),
+                           r.get("wildcard"), r.get("returned"), r.get("bounds"), m_show(vs)))
+        if m["outcome"] == "ok" and not m["exhaustive"]:
+            chk.violation("model-match-not-exhaustive", dict(rep, model=m), "the model emits a non-exhaustive match for %s" % m_show(vs))
+        # oracle on the expansion
+        if r["outcome"] == "panic":
+            e_skipped["panic"] += 1
+            emit(cid, "derive-panics-on-enum", dict(rep, observed="panic: " + r["msg"]), "%s: the derive panics (%s)" % (m_show(vs), r["msg"]))
+            continue
+        if r["outcome"] == "err":
+            e_skipped["rejected"] += 1
+            if exp != "ambiguous":
+                if any((not v[0]) and doc_backtrace_ambiguous(v[1], v[2]) for v in vs):
+                    chk.bump("rejected: backtrace ambiguous, source determined")
+                else:
+                    emit(cid, "rejected-unambiguous", dict(rep, observed="compile error: " + r["msg"]),
+                         "%s is rejected (%s) although the documented rules determine every variant's source: %s" % (m_show(vs), r["msg"], exp))
+            continue
+        if exp == "ambiguous":
+            emit(cid, "ambiguous-accepted", dict(rep, observed={"expansion_returns": r["returned"]}),
+                 "%s: an enabled variant is ambiguous but the derive is accepted (expansion returns %s)" % (m_show(vs), r["returned"]))
+            continue
+        bad = [v for v in range(len(vs)) if r["returned"][v] != exp[v]]
+        if bad:
+            v = bad[0]
+            cls = "ignored-variant-has-source" if vs[v][0] else classify(("variant", vs[v][1], vs[v][2]), "ok", r["returned"][v], exp[v])
+            deferred[cid] = (cls, dict(rep, observed={"expansion_returns": r["returned"]}),
+                             "%s: for V%d the expansion returns field %s, the documented rules select %s" % (m_show(vs), v, r["returned"][v], exp[v]))
+        want_b = sorted([(v, r["returned"][v]) for v in range(len(vs))
+                         if isinstance(r["returned"][v], int) and vs[v][2][r["returned"][v]][1] == "gen"], key=str)
+        if [tuple(b) for b in r["bounds"]] != want_b:
+            emit(cid, "bound-on-wrong-field", dict(rep, observed={"returned": r["returned"], "bounds": r["bounds"]}, expected_bounds=want_b),
+                 "%s: source() returns %s but the `Error + 'static` bounds are on %s (expected %s)" % (m_show(vs), r["returned"], r["bounds"], want_b))
+            if any(b not in [tuple(x) for x in r["bounds"]] for b in want_b):
+                e_skipped["missing-bound"] += 1
+                if cid in deferred:
+                    emit(cid, *deferred.pop(cid))
+                continue
+        # exhaustiveness of the emitted `match self` (rustc: E0004): a wildcard, or an arm for every variant
+        uncovered = [v for v in range(len(vs)) if r["returned"][v] is None]
+        if r["has_fn"] and not r["wildcard"] and uncovered:
+            e_skipped["not-exhaustive"] += 1
+            what = "ignored variant" if all(vs[v][0] for v in uncovered) else "source-less variant"
+            emit(cid, "enum-match-not-exhaustive" + ("-ignored-variant" if all(vs[v][0] for v in uncovered) else ""),
+                 dict(rep, observed={"expansion": "match self without `_ => None`", "variants_without_arm": uncovered,
+                                     "expansion_returns": r["returned"]}),
+                 "%s: the generated `match self` in source() has no `_ => None` arm and no arm for the %s V%s: the derive does not "
+                 "compile (E0004) although source() must be None there" % (m_show(vs), what, uncovered))
+            e_confirm.append((cid, frozenset(r["real"]), r["provide"]))
+            if cid in deferred:
+                emit(cid, *deferred.pop(cid))
+            continue
+        if r["provide"] and r["provide_wildcard"] is False and len(r["provide_arms"]) < len(vs):
+            e_skipped["not-exhaustive"] += 1
+            emit(cid, "enum-provide-match-not-exhaustive", dict(rep, observed={"provide_arms": r["provide_arms"]}),
+                 "%s: the generated `match self` in provide() covers only V%s and has no `_ => ()` arm: the derive does not compile" %
+                 (m_show(vs), r["provide_arms"]))
+            e_confirm.append((cid, frozenset(r["real"]), r["provide"]))
+            if cid in deferred:
+                emit(cid, *deferred.pop(cid))
+            continue
+        if not r["compilable"]:
+            e_skipped[r["why"]] += 1
+            if cid in deferred:
+                emit(cid, *deferred.pop(cid))
+            continue
+        (e_nightly if r["provide"] else e_stable).append((cid, frozenset(r["real"])))
+
     # ---- run time: the real proc-macro, rustc, execution
     if tier == "quick" and not replay:
         cap_s, cap_n = 5000, 2000
@@ -641,23 +971,44 @@ def run(tier, seed, replay):
             nightly = [x for x in nightly if x[0] in keep] + chk.rng.sample([x for x in nightly if x[0] not in keep], cap_n)
         stable.sort()
         nightly.sort()
-    compiled = set(x[0] for x in stable + nightly)
+    compiled = set(x[0] for x in stable + nightly + e_stable + e_nightly)
     for cid in sorted(deferred):
         if cid not in compiled:
             emit(cid, *deferred.pop(cid))
-    chk.log("expansions read: %d; compiling %d layouts on stable, %d on nightly (skipped %s)" %
-            (n_tie, len(stable), len(nightly), skipped))
+    chk.log("expansions read: %d; compiling %d layouts + %d enums on stable, %d + %d on nightly (skipped %s, enums %s)" %
+            (n_tie, len(stable), len(e_stable), len(nightly), len(e_nightly), skipped, e_skipped))
+
+    def module(cid, rb):
+        return m_module(cid, enums[cid - EN], rb) if cid >= EN else render_module(cid, cases[cid], rb)
 
     def job(a):
         name, tc, lst, nb = a
-        return build_and_run(chk, name, tc, [(cid, render_module(cid, cases[cid], rb)) for cid, rb in lst], nb)
+        return build_and_run(chk, name, tc, [(cid, module(cid, rb)) for cid, rb in lst], nb)
     with ThreadPoolExecutor(max_workers=2) as ex:
-        (obs_s, fail_s), (obs_n, fail_n) = ex.map(job, [("c09rt", "stable", stable, 10 if tier == "quick" else 16),
-                                                     ("c09rtn", "nightly", nightly, 5 if tier == "quick" else 12)])
+        (obs_s, fail_s), (obs_n, fail_n) = ex.map(job, [("c09rt", "stable", stable + e_stable, 10 if tier == "quick" else 16),
+                                                     ("c09rtn", "nightly", nightly + e_nightly, 5 if tier == "quick" else 12)])
     obs = dict(obs_s)
     obs.update(obs_n)
     n_rt = 0
+    # rustc's own word on the enums whose expansion reads as non-exhaustive (at most 3, in a crate of their own)
+    if e_confirm:
+        for tc, lst in (("stable", [x for x in e_confirm if not x[2]][:3]), ("nightly", [x for x in e_confirm if x[2]][:3])):
+            if lst:
+                o_c, f_c = build_and_run(chk, "c09cf", tc, [(cid, module(cid, rb)) for cid, rb, _ in lst], 1)
+                for cid, _, _ in lst:
+                    for (vc, args) in verdicts:
+                        if vc == cid and args[0].startswith("enum-"):
+                            args[1]["rustc"] = f_c.get(cid, "compiled: %s" % o_c.get(cid))
+        common.cleanup_scratch("c09cf")
     for cid, msg in list(fail_s.items()) + list(fail_n.items()):
+        if cid >= EN:
+            vs = enums[cid - EN]
+            chk.violation("enum-does-not-compile", {"enum": [[v[0], v[1], [list(f) for f in v[2]]] for v in vs], "item": m_show(vs),
+                                                     "documented": m_expected(vs), "rustc": msg},
+                          "%s: a documented-valid enum is accepted by the derive but its expansion does not compile: %s" % (m_show(vs), msg[:300]))
+            if cid in deferred:
+                emit(cid, *deferred.pop(cid))
+            continue
         c = cases[cid]
         chk.violation("expansion-does-not-compile", {"case": [c[0], c[1], [list(f) for f in c[2]]], "item": show(c), "rustc": msg},
                       "%s: the accepted expansion does not compile: %s" % (show(c), msg[:300]))
@@ -695,11 +1046,46 @@ def run(tier, seed, replay):
             emit(cid, *deferred.pop(cid))
         if kind != "struct" and o.get("U") != "None":
             chk.violation("unit-variant-has-source", dict(rep, observed=o.get("U")), "E::U.source() is %s for %s" % (o.get("U"), show(c)))
+    for cid, rb in e_stable + e_nightly:
+        if cid in fail_s or cid in fail_n:
+            continue
+        vs = enums[cid - EN]
+        r = e_real[cid - EN]
+        exp = m_expected(vs)
+        o = obs.get(cid, {})
+        rep = {"enum": [[v[0], v[1], [list(f) for f in v[2]]] for v in vs], "item": m_show(vs), "documented": exp}
+        got = []
+        for v in range(len(vs)):
+            x = o.get("V%d" % v)
+            got.append("missing" if x is None else None if x == "None" else (int(x[5:-1]) if re.match(r"^Some\(\d+\)$", x) else x))
+        if "missing" in got:
+            chk.violation("no-observation", rep, "no run-time observation for some variant of %s: %s" % (m_show(vs), got), no_input=True)
+            if cid in deferred:
+                emit(cid, *deferred.pop(cid))
+            continue
+        n_rt += len(vs)
+        chk.sample({"item": m_show(vs), "source() per variant": got, "documented": exp}, limit=16)
+        if got != r["returned"]:
+            chk.violation("tie-layer2", dict(rep, observed=got, expansion_returns=r["returned"]),
+                          "%s: source() returns %s at run time but the expansion reads as %s" % (m_show(vs), got, r["returned"]))
+        bad = [v for v in range(len(vs)) if got[v] != exp[v]]
+        if bad:
+            v = bad[0]
+            cls = "ignored-variant-has-source" if vs[v][0] else classify(("variant", vs[v][1], vs[v][2]), "ok", got[v], exp[v])
+            emit(cid, cls, dict(rep, observed={"source()_by_address_per_variant": got, "expansion_returns": r["returned"]}),
+                 "%s: on V%d source() returns %s (address comparison at run time), the documented rules select %s" %
+                 (m_show(vs), v, got[v], exp[v]))
+            deferred.pop(cid, None)
+        elif cid in deferred:
+            emit(cid, *deferred.pop(cid))
     for cid, args in sorted(verdicts, key=lambda x: x[0]):
         chk.violation(*args)
     chk.cov["traces_validated_against_impl"] = n_tie
     chk.cov["runtime_observations"] = n_rt
     chk.cov["not_compiled"] = skipped
+    chk.cov["enums"] = len(enums)
+    chk.cov["enums_compiled"] = len(e_stable) + len(e_nightly)
+    chk.cov["enums_not_compiled"] = e_skipped
     chk.log("run-time observations: %d" % n_rt)
     common.cleanup_scratch("c09rt")
     common.cleanup_scratch("c09rtn")
@@ -717,6 +1103,9 @@ def run(tier, seed, replay):
              "type parameter} x names {source, backtrace, other}: exhaustive for 0..1 fields and 2-field tuples, seeded samples "
              "of 2-field named (3000) and 3-field layouts (2000 + 2000) (thorough: exhaustive to 2 fields and for 3-field tuples, "
              "40000 sampled 3-field named layouts) + hand corpus; every "
+             "+ multi-variant enums: every sequence of length 1..3 (thorough 1..4) over {variant with source, without source, "
+             "ignored with / without a would-be source} x 7 (25) random concretisations, every order of {source, ignored...} "
+             "with all enabled variants having a source, 40 (400) enums with one ambiguous enabled variant, a hand corpus; every "
              "layout goes through the in-process expansion and the Coq model, the compilable ones through rustc (stable; nightly "
              "when the expansion has `provide`) and are executed; non-trivial = a field is selected, or an attribute is present, "
              "or the derive is rejected/panics; distinct by layout",
@@ -732,7 +1121,8 @@ META = {
             "insertion) against `documented_source`, written from impl/doc/error.md: the documented rules are insensitive to "
             "ignored fields and so is the generated code, ambiguous layouts are always rejected, the None cases, selection "
             "and bound correctness and absence of index panics for every layout (enabled-space positions are translated "
-            "through field_indexes before they reach the all-fields pattern). The model is re-tied on every run to the real expansion of every "
+            "through field_indexes before they reach the all-fields pattern), and for whole enums: the emitted match is "
+            "exhaustive (wildcard iff some variant of ALL variants has no arm) and ignored variants return None. The model is re-tied on every run to the real expansion of every "
             "generated layout, and source() of the compiled real macro is compared by address with the fields of the value.",
     "note": "Trusted: Coq kernel/vm_compute; the hand model (tied by differential runs); the reading of the emitted code "
             "(validated by execution); the Python evaluator of the documented rules (cross-checked against the Coq spec). "
